@@ -348,6 +348,76 @@ pub fn check_raw(bytes: &[u8], st: &mut Stats) -> Check {
     Ok(())
 }
 
+/// Fold-only stage: inputs whose *truth from the line list* would need a model of the parser, but for which the
+/// property's own rule (the fold over `iter()`) is exact:
+///  * records that start in the middle of a physical line (some line terminators deleted: a class record ends at its
+///    colon and a sourceFile header at `"}`, so the next record can follow on the same line);
+///  * metadata header values in the numeric grey zone (`+21`, `021`, ` 21 `, non-ASCII digits, 2^32 …): the rule is
+///    "u32 parse of the last min_api header's value", whatever that parse accepts.
+#[derive(Clone, Debug, Serialize, Deserialize)]
+pub struct JoinedCase {
+    pub base: MetaCase,
+    /// which line terminators to delete (bit i = terminator after line i)
+    pub drop: u64,
+    /// (line index fraction, key index, value index) metadata headers with grey-zone values inserted as raw lines
+    pub headers: Vec<(u16, u8, u8)>,
+}
+
+pub const GREY_VALUES: &[&str] = &[
+    "+21", "+0", "-0", "021", "0021", " 21", "21 ", "\t21", "2_1", "0x15", "21.0", "2e1", "\u{661}\u{662}", "\u{ff12}\u{ff11}", "4294967295", "4294967296", "+4294967295", "+4294967296", "", " ", "+", "-",
+    "21:", "21 # x", "٢١", "1 5",
+];
+
+impl JoinedCase {
+    pub fn bytes(&self) -> Vec<u8> {
+        let ls = self.base.lines();
+        let mut texts: Vec<String> = ls.iter().enumerate().map(|(i, l)| line_text(l, i)).collect();
+        for (at, k, v) in &self.headers {
+            let key = ["min_api", "compiler", "compiler_version"][*k as usize % 3];
+            let val = GREY_VALUES[*v as usize % GREY_VALUES.len()];
+            let pos = ((*at as usize) * (texts.len() + 1)) >> 16;
+            texts.insert(pos, format!("# {key}:{}{val}", if *v % 2 == 0 { " " } else { "" }));
+        }
+        let eol = if self.base.crlf { "\r\n" } else { "\n" };
+        let mut out = String::new();
+        for (i, t) in texts.iter().enumerate() {
+            out.push_str(t);
+            let last = i + 1 == texts.len();
+            let dropped = (self.drop >> (i % 64)) & 1 == 1;
+            if (!last && !dropped) || (last && self.base.final_eol) {
+                out.push_str(eol);
+            }
+        }
+        out.into_bytes()
+    }
+}
+
+pub fn joined_case() -> BoxedStrategy<JoinedCase> {
+    let small = (vec(seg().prop_map(|mut s| {
+        s.reps = s.reps.min(3);
+        s
+    }), 1..10), any::<bool>(), prop::bool::weighted(0.25))
+        .prop_map(|(segs, final_eol, crlf)| MetaCase { segs, final_eol, crlf });
+    (small, prop_oneof![3 => Just(0u64), 4 => any::<u64>().prop_map(|x| x & (x >> 1) & (x >> 2)), 2 => any::<u64>()], vec((any::<u16>(), 0u8..3, 0u8..GREY_VALUES.len() as u8), 0..4))
+        .prop_map(|(base, drop, headers)| JoinedCase { base, drop, headers })
+        .boxed()
+}
+
+pub fn check_joined(c: &JoinedCase, st: &mut Stats) -> Check {
+    let b = c.bytes();
+    if c.drop != 0 {
+        st.class("records starting in the middle of a physical line (terminators deleted)");
+    }
+    if !c.headers.is_empty() {
+        st.class("metadata header with a grey-zone numeric value");
+    }
+    if st.want_sample() && c.drop != 0 && !c.headers.is_empty() && b.len() < 400 {
+        st.sample(|| json!({"joined file": show_bytes(&b)}));
+    }
+    st.nontrivial(fnv64(&b));
+    check_raw(&b, st)
+}
+
 pub fn seg() -> impl Strategy<Value = Seg> {
     let line = prop_oneof![
         4 => Just(L::Class),
@@ -405,9 +475,10 @@ pub struct RawCase {
 
 pub fn run(ctx: &Ctx) -> Report {
     let mut rep = Report::new(ID, "exploration", ctx);
-    rep.rule = "Generated: files built from segments (class / line-mapped method / method without usable range in 3 spellings / field / compiler, compiler_version, min_api and look-alike headers with well-formed, malformed, valueless and > u32 values / error lines / blank lines), each repeated 1, 2..5, 47..52, 1000 or 10000 times, so that the deciding record sits after 0, 1, 49, 50, 51, thousands of negatives or in the last line without terminator; LF or CRLF; plus hostile token mutants and raw bytes. Oracle: (1) truth computed from the generated line list, (2) the fold over ProguardMapping::iter() stated in the property; has_line_info / is_valid / summary must equal both. evaluations = files. Non-trivial = distinct files whose deciding record (first line-mapped method, last metadata header) is not among the first 10 items.".into();
-    rep.assumptions = vec!["min_api is the u32 parse of the last min_api header value; values with a leading '+' are not generated".into()];
+    rep.rule = "Generated: files built from segments (class / line-mapped method / method without usable range in 3 spellings / field / compiler, compiler_version, min_api and look-alike headers with well-formed, malformed, valueless and > u32 values / error lines / blank lines), each repeated 1, 2..5, 47..52, 1000 or 10000 times, so that the deciding record sits after 0, 1, 49, 50, 51, thousands of negatives or in the last line without terminator; LF or CRLF; plus a fold-only stage with records starting mid-line (line terminators deleted) and metadata values in the numeric grey zone (+21, 021, padded, non-ASCII digits, 2^32), plus hostile token mutants and raw bytes. Oracle: (1) truth computed from the generated line list, (2) the fold over ProguardMapping::iter() stated in the property; has_line_info / is_valid / summary must equal both. evaluations = files. Non-trivial = distinct files whose deciding record (first line-mapped method, last metadata header) is not among the first 10 items.".into();
+    rep.assumptions = vec!["min_api is the u32 parse of the last min_api header value; grey-zone values (leading +, padding, non-ASCII digits) are only judged by the fold over iter(), never by the hand-written truth".into()];
     rep.run_stage("segments", meta_case, ctx.cases(40_000, 1_800_000), check_case);
+    rep.run_stage("joined", joined_case, ctx.cases(60_000, 1_500_000), check_joined);
     let longs = long_cases();
     rep.run_enum("long", &longs, check_case);
     let cfg = crate::gen::mapping::GenCfg { plain_sourcefile_headers: true, ..Default::default() };
@@ -427,6 +498,7 @@ pub fn replay(stage: &str, case: &Value) -> Check {
     let mut st = Stats::new();
     let de = |e: serde_json::Error| Fail::new("harness-replay", e.to_string());
     match stage {
+        "joined" => check_joined(&serde_json::from_value(case.clone()).map_err(de)?, &mut st),
         "segments" | "long" => check_case(&serde_json::from_value(case.clone()).map_err(de)?, &mut st),
         "mutants" => {
             let c: crate::gen::mutate::MutCase = serde_json::from_value(case.clone()).map_err(de)?;
